@@ -449,6 +449,38 @@ def _work_inner(job):
     return out
 
 
+def tight_exprs():
+    out = []
+    for d in (4,):
+        for a in (-4, -1, 1, 4):
+            for b in (0, 1):
+                for c in (-5, -4, -1, 0, 1, 3, 4, 5):
+                    terms = []
+                    if a == 1:
+                        terms.append("i")
+                    elif a == -1:
+                        terms.append("0 - i")
+                    elif a < 0:
+                        terms.append(f"0 - {-a} * i")
+                    else:
+                        terms.append(f"{a} * i")
+                    if b:
+                        terms.append("j")
+                    e = " + ".join(terms)
+                    if c > 0:
+                        e = f"{c} + {e}" if a < 0 else f"{e} + {c}"
+                    elif c < 0:
+                        e = f"{e} - {-c}"
+                    for op in ("/", "%"):
+                        out.append(f"({e}) {op} {d}")
+                        if c in (-1, 1, 4, 5):
+                            out.append(f"({e}) {op} {d} + 1")
+    # the forms c - i with c a multiple of d, and quotient + remainder recombinations with offsets
+    out += ["(4 - i) / 4", "(4 - i) % 4", "(8 - i) / 4", "(8 - 2 * i) / 4", "(5 - i) / 4 + 1", "(0 - i) % 4", "(0 - i) / 4", "(12 - i - j) / 4",
+            "(i - 1) % 4 + 4 * ((i - 1) / 4)", "(i + 5) % 4 + 4 * ((i + 5) / 4)", "4 * ((i - 5) / 4) + (i - 5) % 4 + 8"]
+    return out
+
+
 def plan(tier, vseed):
     rng = random.Random(f"c12-{vseed}")
     exprs = list(HAND)
@@ -469,6 +501,14 @@ def plan(tier, vseed):
             specs.append((f"c12_{k}", e, ctx, loop, fact, extra))
             k += 1
     specs += [(nm, src, "special", None, None, None) for nm, src in SPECIALS]
+    # tight grid (always complete): (a*i + b*j + c) op d for every sign of the coefficient and every constant
+    # around the multiples of d, under each loop shape (zero / non-zero, literal / symbolic lower bound).
+    # These are the shapes division_simplification / modulo_simplification and the range analysis must get
+    # exactly right: negative constants with a non-zero lower bound, negated variables, constants >= d.
+    for tg in tight_exprs():
+        for lname, loop in LOOPS:
+            specs.append((f"c12_{k}", tg, "index", loop, None, None))
+            k += 1
     jobs = []
     B = 25
     for b in range(0, len(specs), B):
